@@ -59,6 +59,11 @@ CHECKS = {
         "verdict must equal the oracle's.",
         "DESIGN.md section 4 C09",
     ),
+    "C10": sx(
+        "model field, current_state, current_state_value and is_active compared with a value table after every operation of a solver-enumerated script; setter driven with a symbolic int",
+        "All bounded combinations of value family, model shape, start_value, pre-stored state and operation script are executed symbolically.",
+        "DESIGN.md section 4 C10",
+    ),
     "C13": sx(
         "calling styles compared relationally on symbolic guards/arguments; send(name) over the finite attribute-name pool; event matching over a symbolic string (z3 string theory)",
         "Every pre-state x event x calling style twin, every attribute name of the machine as an event name, and Transition.match for all strings.",
